@@ -331,9 +331,13 @@ Definition pr_repr (r : pres) : str := py_repr (vpr (view r)).
    harness re-evaluates the string itself *)
 Definition shash (s : str) : N :=
   fold_left (fun acc c => N.land (N.shiftl acc 5 + acc + c + 1) 2305843009213693951%N) s 5381%N.
+(* Coq prints numbers through an interpreted binary-to-decimal conversion, slow for 61-bit values: hashes are printed as
+   seven 9-bit limbs *)
+Definition limbs (n : N) : list N :=
+  map (fun k => N.land (N.shiftr n (9 * N.of_nat k)) 511%N) (seq 0 7).
 (* as_list() is the head of dump(), as_dict() and the token list are inside repr(): the three hashes cover them *)
 Definition observe (r : pres) :=
-  (keys r, len r, pr_bool r, pr_haskeys r, shash (pr_str r), shash (pr_repr r), shash (pr_dump r), get_name r).
+  (keys r, len r, pr_bool r, pr_haskeys r, limbs (shash (pr_str r)), limbs (shash (pr_repr r)), limbs (shash (pr_dump r)), get_name r).
 (* structural hash of a state (tokens, name table with positions, _name; the list-all set is printed as is) *)
 Definition hmix (a b : N) : N := N.land (a * 1114129 + b + 1) 2305843009213693951%N.
 Definition hash_Z (z : Z) : N := (Z.abs_N z * 2 + (if (z <? 0)%Z then 1 else 0))%N.
@@ -354,12 +358,12 @@ Fixpoint hash_tok (t : tok) : N :=
   end.
 Definition hash_pres (r : pres) : N := hash_tok (TPR r).
 Definition observe_light (r : pres) :=
-  (keys r, len r, pr_bool r, pr_haskeys r, 0%N, 0%N, shash (pr_dump r), get_name r).
+  (keys r, len r, pr_bool r, pr_haskeys r, limbs 0%N, limbs 0%N, limbs (shash (pr_dump r)), get_name r).
 Fixpoint explore_hash (depth : nat) (alphabet : list op) (r : pres) :=
   match depth with
   | O => []
   | S d => flat_map (fun o => let (r1, res) := apply_op r o in
-                              (res, (hash_pres r1, allnames r1), observe_light r1) :: explore_hash d alphabet r1) alphabet
+                              (res, (limbs (hash_pres r1), allnames r1), observe_light r1) :: explore_hash d alphabet r1) alphabet
   end.
 (* every history of length <= depth over an alphabet, DFS pre-order: (result of the last operation, state after it,
    observation bundle of that state) *)
